@@ -492,14 +492,16 @@ struct Kern {
                         break;
                 }
                 default: { // one-shot deflate + inflate round trip through the dispatcher (kernels selected per CPU)
-                        size_t l = len % 30000;
+                        size_t l = (sub & 16) ? 20000 + len % 50000 : len % 30000; // far-copy data needs room for copies from 4-32 KiB back
                         Slot *s = buf(l, place, "rt_in", r), *zs = g_arena.alloc(sizeof(struct isal_zstream), PLACE_END, "zstream", fill + 8, 16), *o = g_arena.alloc(l + l / 8 + 300, PLACE_END, "rt_comp", fill + 9, 1);
                         Slot *is = g_arena.alloc(sizeof(struct inflate_state), PLACE_END, "inflate_state", fill + 10, 8), *d = g_arena.alloc(l, PLACE_END, "rt_out", fill + 11, 1);
                         int level = sub % 4;
                         Slot *lb = level >= 2 ? g_arena.alloc(level == 2 ? ISAL_DEF_LVL2_DEFAULT : ISAL_DEF_LVL3_DEFAULT, PLACE_END, "level_buf", fill + 12, 16) : nullptr;
                         if (!s || !zs || !o || !is || !d || (level >= 2 && !lb))
                                 return false;
-                        if (sub & 4)
+                        if (sub & 16)
+                                far_copies(s->data, l, seed);
+                        else if (sub & 4)
                                 for (size_t i = 0; i < l; i++)
                                         s->data[i] = (uint8_t) ('a' + s->data[i] % 4);
                         struct isal_zstream *z = (struct isal_zstream *) zs->data;
